@@ -675,7 +675,8 @@ IOS_ACCESSORS = [
     ("BaseIOSIntfLine", ["name", "port_type", "interface_number", "subinterface_number", "description", "ipv4_addr",
                          "ipv4_netmask", "ipv4_addr_object", "ip_secondary_addresses", "ip_secondary_networks", "vrf",
                          "manual_mtu", "manual_ip_mtu", "is_shutdown", "is_switchport", "has_manual_switch_access",
-                         "has_manual_switch_trunk", "access_vlan", "native_vlan", "trunk_vlans_allowed"]),
+                         "has_manual_switch_trunk", "access_vlan", "native_vlan", "trunk_vlans_allowed",
+                         "cisco_interface_object"]),
     ("IOSCfgLine", ["is_object_for_interface"]),
     ("IOSRouteLine", ["is_object_for", "__init__"]),
 ]
